@@ -186,7 +186,7 @@ def j_c07(ms):
 @judge_for("C18", "pad")
 def j_c18_pad(inp):
     ms, p = inp
-    s = mk_rel(ms)
+    s = ops.mk_rel_junk(ms)
     s.pad(p)
     out = rel_of(s)
     a_in, d_in = abs_from_rel(ms)
@@ -209,7 +209,13 @@ def j_c18_cutoff(inp):
     out = abs_of(s)
     exp = sorted((c, p, on, (red if d > mx else d), vel) for c, p, on, d, vel in roll(ms))
     v = []
-    if roll(out) != exp:
+    if red == 0:
+        # collapsed notes have no piano-roll representation: compare the note messages themselves
+        expm = sorted([("NOTE_ON", c, on, p) for c, p, on, d, vel in exp] + [("NOTE_OFF", c, on + d, p) for c, p, on, d, vel in exp])
+        gotm = sorted((m[0], m[1], m[2], m[4]) for m in out if m[0] in ("NOTE_ON", "NOTE_OFF"))
+        if gotm != expm:
+            v.append(f"note messages after cutoff({mx}, 0): {gotm}, expected {expm}")
+    elif roll(out) != exp:
         v.append(f"notes after cutoff {roll(out)} expected {exp}")
     non = lambda l: events([m for m in l if m[0] not in ("NOTE_ON", "NOTE_OFF")])
     if non(ms) != non(out):
@@ -285,10 +291,20 @@ def j_c08(inp):
     s = mk_rel(ms)
     s.refresh()
     before = ops.show_seq(s)
-    ps = [rel_of(p) for p in s.split(list(caps))]
+    pieces = s.split(list(caps))
+    ps = [rel_of(p) for p in pieces]
     v = []
     if ops.show_seq(s) != before:
         v.append("split changed its source")
+    # the pieces are values of their own: an in-place operation on one of them leaves the others (and the source) alone
+    if len(pieces) > 1:
+        k = next((i for i, p in enumerate(ps) if any(m[0] == "NOTE_ON" for m in p)), 0)
+        pieces[k].transpose(1)
+        pieces[k].set_channel(9)
+        if [rel_of(p) for i, p in enumerate(pieces) if i != k] != [p for i, p in enumerate(ps) if i != k]:
+            v.append(f"transposing piece {k} changed another piece")
+        if ops.show_seq(s) != before:
+            v.append(f"transposing piece {k} changed the source")
     if len(ps) > len(caps) + 1:
         v.append("more than len(capacities)+1 pieces")
     durs = [abs_from_rel(p)[1] for p in ps]
@@ -322,7 +338,7 @@ def j_c10(inp):
     a_in, d_in = abs_from_rel(ms)
     if any(m[0] == "WAIT" and m[2] < 0 for m in ms):
         return None
-    s = mk_rel(ms)
+    s = ops.mk_rel_junk(ms)
     cap = num * 96 // den
     # signatures that survive normalisation, computed independently: a signature is dropped only when it repeats the
     # previous one literally (same numerator and same denominator)
@@ -413,6 +429,24 @@ def _c11_check(store, step, op, memo):
 J.setdefault("C11", []).append(("history", _history_hook(_c11_check)))
 
 
+@judge_for("C06", "util")
+def j_c06_defaults(inp):
+    """default note values: a caller that edits the list it was given must not change the values a later default
+    quantisation allows"""
+    from scoda.misc import util
+    kind, a = inp
+    if kind != "defaults":
+        return None
+    documented = list(util.get_default_note_values())
+    mine = util.get_default_note_values()
+    mine[:] = [x for x in mine if x % 3 == 0]          # e.g. keep only the straight values
+    s = mk_abs([ON(0, 60, 100, 0), OFF(0, 60, 16), ON(0, 62, 100, 48), OFF(0, 62, 56)])
+    s.quantise_note_lengths()
+    got = sorted(d for _, _, _, d, _ in roll(abs_of(s)))
+    exp = sorted(min(documented, key=lambda v: (abs(v - d), documented.index(v))) for d in (16, 8))
+    return [] if got == exp else [f"default note-length quantisation after a caller edited the list it got from get_default_note_values(): durations {got}, expected {exp}"]
+
+
 @judge_for("C11", "util")
 def j_c11_util(inp):
     from scoda.misc import util
@@ -447,6 +481,20 @@ def j_c11_tok(inp):
         if any(m[3] for m in abs_of(s)):
             v.append("detokenise produced a float tick")
     return v
+
+
+@judge_for("C11", "midi_load")
+def j_c11_load(inp):
+    """integer ticks in everything the loader returns (file ticks are integers; the rescaled position is rounded)"""
+    try:
+        seqs = ops.midi_load(inp, os.path.join(ops.TMP, f"t{os.getpid()}.mid"))
+    except Exception:
+        return None
+    for i, s_ in enumerate(seqs):
+        bad = [m for m in abs_of(s_) + rel_of(s_) if m[3]]
+        if bad:
+            return [f"loaded sequence {i} holds a float tick: {bad[0]}"]
+    return []
 
 
 @judge_for("C11", "tok_stream")
@@ -571,6 +619,9 @@ def _c16_check(store, step, op, memo):
                 v.append(f"step {step} {op}: object {i} changed from {memo[i]} to {c} although the operation was not applied to it")
     if op[0] == "OCopy" and len(cur) > len(memo) and cur[-1] != cur[op[1]]:
         v.append(f"step {step}: copy of object {op[1]} differs from it")
+    if op[0] == "OCopy" and len(cur) > len(memo) and ops.show_seq(store[-1]) != ops.show_seq(store[op[1]]):
+        v.append(f"step {step}: the copy of object {op[1]} does not hold the same message lists in both views: "
+                 f"{ops.show_seq(store[-1])[:300]} vs {ops.show_seq(store[op[1]])[:300]}")
     if op[0] == "OBarCopy" and len(cur) > len(memo):
         # Bar.copy() of a bar whose sequence is object i: the constructor normalises and pads, but on well-formed content
         # the copy holds exactly the original's notes
@@ -869,6 +920,30 @@ def j_c09(inp):
 
 
 # ---- C14
+@judge_for("C14", "transpose_rel")
+def j_c14_messages(inp):
+    """message-level reading, for every stream (also ill-formed ones): every note message ends up in range on the pitch
+    class of pitch + k; the flag is true exactly when some note message had to be moved by octaves; flag false means
+    every note message was shifted by exactly k"""
+    ms, k = inp
+    rs = ops.RelativeSequence(messages=[ops.to_message(m, rel=True) for m in ms])
+    flag = rs.transpose(k)
+    out = [ops.from_message(m, rel=True) for m in rs._messages]
+    v = []
+    if len(out) != len(ms):
+        return ["transpose changed the number of messages"]
+    moved = False
+    for a, b in zip(ms, out):
+        if a[0] in ("NOTE_ON", "NOTE_OFF"):
+            if not (21 <= b[4] <= 108) or (b[4] - a[4] - k) % 12:
+                v.append(f"{a[0]} {a[4]} became {b[4]} (k = {k})")
+                break
+            moved = moved or b[4] != a[4] + k
+    if bool(flag) != moved:
+        v.append(f"returned {bool(flag)} although {'a' if moved else 'no'} note message was moved by octaves")
+    return v
+
+
 @judge_for("C14", "transpose_rel")
 def j_c14(inp):
     ms, k = inp
@@ -1382,7 +1457,7 @@ def j_c02_closed(inp):
         return None
     t = ops.mk_tok(cfg)
     try:
-        toks = t.tokenise([ops.mk_track(ms, h) for ms, h in zip(tracks, hows)])
+        toks = t.tokenise([ops.mk_track(ms, h) for ms, h in zip(tracks, hows)], state_dict=ops.init_state(inp))
     except Exception:
         return None
     bad = [x for x in toks if x not in t.dictionary]
